@@ -22,6 +22,7 @@ import (
 	"go/token"
 	"go/types"
 	"math"
+	"os"
 	"sort"
 	"strconv"
 	"strings"
@@ -39,6 +40,8 @@ type panicError struct{ why string }
 
 func (e oodError) Error() string   { return "outside the evaluated fragment: " + e.why }
 func (e panicError) Error() string { return "run-time panic: " + e.why }
+
+var absDebug = os.Getenv("VCHECK_DEBUG_ABSINT") != ""
 
 func ood(format string, args ...any) { panic(oodError{fmt.Sprintf(format, args...)}) }
 func rtPanic(format string, args ...any) {
@@ -110,6 +113,10 @@ type TimeV struct{ T time.Time }
 // StrDataV is the *byte that unsafe.StringData returns for a string.
 type StrDataV struct{ S string }
 
+// ChanV is a channel that is made and stored but never used by the evaluated code (sends, receives and selects stay
+// outside the evaluated fragment).
+type ChanV struct{ Cap int }
+
 // ExtFn is a function value supplied by the rule (a hook, a user's lazy generator): calling it goes to Interp.OnExt.
 type ExtFn struct{ Name string }
 
@@ -120,6 +127,8 @@ type FramesV struct {
 }
 
 type Interp struct {
+	traced       bool
+	trace        []string
 	c            *Ctx
 	Steps        int
 	MaxSteps     int
@@ -149,11 +158,12 @@ type Interp struct {
 	// OnMarshal models encoding/json.Marshal on an abstract value.
 	OnMarshal func(ip *Interp, v AV) ([]byte, error)
 	Atomics   map[string]AV // values of sync/atomic typed variables, by cell identity
-	pcOf       map[string]int
-	pcName     []string
-	initDone   bool
-	depth      int
-	nextID     int
+	pcOf      map[string]int
+	pcName    []string
+	initDone  bool
+	InitFull  bool // the package initialiser also performs its registrations (plugins, converters, levels …)
+	depth     int
+	nextID    int
 }
 
 func newInterp(c *Ctx) *Interp {
@@ -167,8 +177,12 @@ func (ip *Interp) newObj(v AV) *Obj {
 
 // Run calls fn with the given arguments (and free variables for a closure body) and converts the two error kinds.
 func (ip *Interp) Run(fn *ssa.Function, args []AV, free []AV) (res AV, err error) {
+	ip.traced = false
 	defer func() {
 		if x := recover(); x != nil {
+			if absDebug && ip.traced {
+				fmt.Fprintln(os.Stderr, strings.Join(ip.trace, "\n"))
+			}
 			switch e := x.(type) {
 			case oodError:
 				err = e
@@ -375,6 +389,19 @@ func (ip *Interp) initGlobals() {
 			preset[o] = true
 		}
 	}
+	if ip.InitFull {
+		// package variables start as the zero value of their type
+		for _, m := range ip.c.LogS.Members {
+			if g, ok := m.(*ssa.Global); ok && !strings.HasPrefix(g.Name(), "init$") {
+				if o, ok := ip.Globals[g]; !ok || o.V == nil {
+					func() {
+						defer func() { recover() }()
+						ip.Globals[g] = ip.newObj(ip.zeroOf(g.Type().(*types.Pointer).Elem()))
+					}()
+				}
+			}
+		}
+	}
 	saveSteps, saveDepth, saveStack := ip.Steps, ip.depth, ip.Stack
 	defer func() { ip.Steps, ip.depth, ip.Stack = saveSteps, saveDepth, saveStack }()
 	ip.depth, ip.Stack = 0, nil
@@ -391,6 +418,7 @@ func (ip *Interp) initGlobals() {
 						switch x.(type) {
 						case oodError, panicError:
 							// skipped
+							ip.traced = false
 						default:
 							panic(x)
 						}
@@ -435,12 +463,31 @@ func (ip *Interp) initGlobals() {
 						return
 					}
 					p.store(ip.operand(fr, x.Val))
-				case *ssa.MapUpdate, *ssa.DebugRef, *ssa.Defer, *ssa.Go, *ssa.Send, *ssa.RunDefers:
+				case *ssa.MapUpdate:
+					if !ip.InitFull {
+						return
+					}
+					m, ok := ip.operand(fr, x.Map).(*MapV)
+					if !ok {
+						return
+					}
+					k := mapKey(ip.operand(fr, x.Key))
+					if _, had := m.M[k]; !had {
+						m.Keys = append(m.Keys, k)
+					}
+					m.M[k] = copyVal(ip.operand(fr, x.Value))
+				case *ssa.DebugRef, *ssa.Defer, *ssa.Go, *ssa.Send, *ssa.RunDefers:
 				case ssa.Value:
 					if call, isCall := x.(*ssa.Call); isCall {
 						// only pure modelled library calls and module constructors of plain values; registrations are skipped
-						if cal := call.Call.StaticCallee(); cal != nil && cal.Pkg == ip.c.LogS && cal.Signature.Results().Len() == 0 {
-							return
+						if cal := call.Call.StaticCallee(); cal != nil && !ip.InitFull {
+							o := cal
+							if cal.Origin() != nil {
+								o = cal.Origin()
+							}
+							if o.Pkg == ip.c.LogS && cal.Signature.Results().Len() == 0 {
+								return
+							}
 						}
 					}
 					fr.env[x] = ip.value(fr, x)
@@ -532,7 +579,7 @@ func avEqual(a, b AV) bool {
 		switch y := b.(type) {
 		case NilV:
 			return true
-		case *Sym, *Ptr, *SliceV, *Closure, *IfaceV, *MapV, *ExtFn, *SeqV, *StrDataV, *StorageV, *ReflectV:
+		case *Sym, *Ptr, *SliceV, *Closure, *IfaceV, *MapV, *ExtFn, *SeqV, *StrDataV, *StorageV, *ReflectV, *RTypeV, *RValV, *ChanV:
 			_ = y
 			return false
 		}
@@ -590,6 +637,19 @@ func avEqual(a, b AV) bool {
 			return true
 		}
 	case *SliceV, *MapV, *Closure, *ExtFn, *SeqV, *StrDataV, *StorageV, *ReflectV:
+		if _, ok := b.(NilV); ok {
+			return false
+		}
+	case *RTypeV:
+		switch y := b.(type) {
+		case *RTypeV:
+			return types.Identical(x.T, y.T)
+		case NilV:
+			return false
+		case *IfaceV:
+			return avEqual(a, y.V)
+		}
+	case *RValV, *ChanV:
 		if _, ok := b.(NilV); ok {
 			return false
 		}
@@ -673,7 +733,25 @@ func (ip *Interp) call(fn *ssa.Function, args []AV, free []AV) AV {
 	}
 	ip.depth++
 	ip.Stack = append(ip.Stack, fn)
-	defer func() { ip.depth--; ip.Stack = ip.Stack[:len(ip.Stack)-1] }()
+	var curIn ssa.Instruction
+	defer func() {
+		if absDebug {
+			if x := recover(); x != nil {
+				if !ip.traced {
+					ip.traced = true
+					ip.trace = []string{fmt.Sprintf("ABSINT %v", x)}
+				}
+				if curIn != nil {
+					ip.trace = append(ip.trace, fmt.Sprintf("  in %s: %s  (%s)", fname(fn), curIn.String(), fn.Prog.Fset.Position(curIn.Pos())))
+				}
+				ip.depth--
+				ip.Stack = ip.Stack[:len(ip.Stack)-1]
+				panic(x)
+			}
+		}
+		ip.depth--
+		ip.Stack = ip.Stack[:len(ip.Stack)-1]
+	}()
 	if ip.depth > 60 {
 		ood("call depth")
 	}
@@ -682,6 +760,7 @@ func (ip *Interp) call(fn *ssa.Function, args []AV, free []AV) AV {
 	b := fn.Blocks[0]
 	for {
 		for _, in := range b.Instrs {
+			curIn = in
 			ip.Steps++
 			if ip.Steps > ip.MaxSteps {
 				ood("step budget exhausted in %s", fname(fn))
@@ -791,6 +870,8 @@ func mapKey(v AV) string {
 		return "sym:" + x.Name
 	case *IfaceV:
 		return mapKey(x.V)
+	case *RTypeV:
+		return "rtype:" + types.TypeString(x.T, nil)
 	}
 	ood("map key %s", avString(v))
 	return ""
@@ -826,6 +907,9 @@ func (ip *Interp) apply(cc *ssa.CallCommon, fv AV, args []AV) AV {
 				rtPanic("method call on nil interface")
 			}
 			ood("interface method %s on %s", cc.Method.Name(), avString(fv))
+		}
+		if rt, isRT := iv.V.(*RTypeV); isRT {
+			return ip.rtypeMethod(rt, cc, args)
 		}
 		if sym, isSym := iv.V.(*Sym); isSym {
 			if cc.Method.Name() == "Error" && strings.HasPrefix(sym.Name, "error:") {
@@ -1174,6 +1258,23 @@ func (ip *Interp) value(fr *aframe, v ssa.Value) AV {
 		return &SliceV{B: b, Lo: 0, Hi: n, Cap: cp}
 	case *ssa.MakeMap:
 		return &MapV{M: map[string]AV{}}
+	case *ssa.MakeChan:
+		n := int(avInt(ip.operand(fr, x.Size)))
+		// runtime.makechan: negative sizes and sizes whose buffer exceeds the address space (maxAlloc = 1<<48 on
+		// 64-bit targets) panic
+		es := int64(1)
+		if ct, ok := x.Type().Underlying().(*types.Chan); ok {
+			func() {
+				defer func() { recover() }()
+				if z := types.SizesFor("gc", "amd64").Sizeof(ct.Elem()); z > 0 {
+					es = z
+				}
+			}()
+		}
+		if n < 0 || int64(n) > (1<<48)/es {
+			rtPanic("makechan: size out of range (%d)", n)
+		}
+		return &ChanV{Cap: n}
 	case *ssa.MakeClosure:
 		cl := &Closure{Fn: x.Fn.(*ssa.Function)}
 		for _, b := range x.Bindings {
@@ -1417,6 +1518,8 @@ func (ip *Interp) builtin(name string, args []AV, cc *ssa.CallCommon) AV {
 	switch name {
 	case "len":
 		switch x := args[0].(type) {
+		case *ChanV:
+			return kInt(0)
 		case constant.Value:
 			return kInt(int64(len(avStr(x))))
 		case *MapV:
@@ -1427,6 +1530,8 @@ func (ip *Interp) builtin(name string, args []AV, cc *ssa.CallCommon) AV {
 		return kInt(int64(sliceLen(args[0])))
 	case "cap":
 		switch x := args[0].(type) {
+		case *ChanV:
+			return kInt(int64(x.Cap))
 		case NilV:
 			return kInt(0)
 		case *SliceV:
@@ -1683,6 +1788,14 @@ func (ip *Interp) model(fn *ssa.Function, args []AV) (res AV, ok bool) {
 		ip.Trace = append(ip.Trace, "pool.Get(new)")
 		if nf := ip.PoolNew[p.O]; nf != nil {
 			return ip.callFn(nf, nil, nil), true
+		}
+		// a pool value built by the evaluated initialiser: its New field holds the function
+		if sv, ok := p.peek().(*StructV); ok {
+			for _, f := range sv.F {
+				if cl, ok := f.(*Closure); ok {
+					return ip.callFn(cl.Fn, nil, cl.Free), true
+				}
+			}
 		}
 		return NilV{}, true
 	case "(*sync.Pool).Put":
